@@ -1,52 +1,160 @@
 """C12 - a Handle loads its resource at most once between clears.
 
 E1 exploration (DESIGN.md 3, C12) on the real ``Handle`` / ``ResourceMap`` /
-``StaticResourceMap``: one counting handle stored at ``r/k``, the map's
-static snapshot taken up front, operations = six access paths + ``clear()``,
-one exploration per loaded value.  The oracle never applies ``==`` or
-``bool()`` to a loaded value (identity only): some of the values have a
-hostile ``__eq__`` / ``__bool__`` on purpose.
+``StaticResourceMap`` / ``WorldFromFileHandle``: one counting handle stored
+at ``r/k``, the map's static snapshot taken up front, operations = eight
+access paths + ``clear()``, one exploration per (loaded value, loader).  The
+oracle never applies ``==`` or ``bool()`` to a loaded value (identity only):
+some of the values have a hostile ``__eq__`` / ``__bool__`` on purpose.
+
+Access paths 7 and 8 reach the resource from a world description file: two
+``WorldFromFileHandle`` stored in the same map (``w/one``: one component
+taking ``$res{r.k}``; ``w/two``: two components, one taking it as positional
+and one as keyword argument).  The access drops the world the world handle
+holds, loads the world through the map and returns what the component(s)
+received.
+
+Loader ``raise_first``: the first ``load()`` call after every ``clear()``
+(and the very first one) raises, the next one succeeds (a file that is not
+there yet).  The failed access must hand an exception to its caller and must
+leave the handle uncached.
+
+A history case is ``(value, word)`` (loader ``ok``, the form of older replay
+records) or ``(value, loader, word)``.
 """
+import atexit
 import collections
+import json
+import os
+import shutil
+import sys
+import tempfile
+import types
 
 from mc import env  # noqa: F401  (binds desper to the tree under test)
 from mc import kernel
 from mc.canon import canon
-from mc.report import Violation
+from mc.report import Violation, HarnessError
 
 import desper
+from desper.model.world import object_from_string
 
 RULE = ('Operations: h(), m["r/k"], m["r"]["k"], s.r.k, s["r"]["k"], '
-        's.get("r").get("k")() and h.clear() on one real counting Handle '
-        'stored at r/k of a real ResourceMap whose static snapshot s is '
-        'taken up front; everything is repeated per loaded value in {None, '
-        '0, "", [], object(), __eq__ -> False, __eq__ raises, __bool__ '
-        'raises}.  Parts "fixpoint/<value>" (E1): breadth-first search, '
-        'states merged on the canonical key (model (accessed since clear, '
-        'loads in this epoch, an earlier epoch had an access) + generic '
-        'object graph of map, handle and snapshot), explored until no new '
-        'state appears.  Part "histories" (no merging): every one of the '
-        '7^D operation sequences of length D (all shorter histories are '
-        'their prefixes), the step oracle and the state oracle evaluated '
-        'after every operation.  Every operation is executed on the '
-        'implementation; non-trivial = the transition / history exercised '
-        'a named shortcut (cache hit on a falsy value, reload after clear, '
-        'static attribute access, clear of an uncached handle, two clears '
-        'in a row ...).')
+        's.get("r").get("k")(), world-file w/one, world-file w/two and '
+        'h.clear() on one real counting Handle stored at r/k of a real '
+        'ResourceMap whose static snapshot s is taken up front.  The two '
+        'world-file accesses: a real WorldFromFileHandle stored in the same '
+        'map at w/one (JSON file with one component taking "$res{r.k}") / '
+        'w/two (two components in one file, one taking "$res{r.k}" as '
+        'positional, one as keyword argument); the access clears the world '
+        'handle, loads the world with m["w/one"] and returns the object(s) '
+        'the component(s) received (then clears the world handle again).  '
+        'Everything is repeated per loaded value in {None, 0, "", [], '
+        'object(), __eq__ -> False, __eq__ raises, __bool__ raises} x loader '
+        'in {ok, raise_first}; raise_first = the first load() call of every '
+        'clear-delimited epoch raises, the next one succeeds.  Parts '
+        '"fixpoint/<value>[/raise_first]" (E1): breadth-first search, states '
+        'merged on the canonical key (model (successful access since clear, '
+        'failed access since clear, loads in this epoch, an earlier epoch '
+        'had an access) + generic object graph of map, handle, world handles '
+        'and snapshot), explored until no new state appears.  Part '
+        '"histories" (no merging): every one of the 9^D operation sequences '
+        'of length D (all shorter histories are their prefixes) per value '
+        'and loader, the step oracle and the state oracle evaluated after '
+        'every operation; thorough adds part "histories-basic": every one of '
+        'the 7^6 sequences over the operations without the world-file '
+        'accesses, per value and loader.  Every operation is executed on the '
+        'implementation; non-trivial = the transition / history exercised a '
+        'named shortcut (cache hit on a falsy value, reload after clear, '
+        'static attribute access, clear of an uncached handle, two clears in '
+        'a row, load that raises, access after a failed load, reference '
+        'from a world file ...).')
 
 VALUES = ('none', 'zero', 'empty_str', 'empty_list', 'object', 'eq_false',
           'eq_raises', 'bool_raises')
 BAND = {'none': 'falsy', 'zero': 'falsy', 'empty_str': 'falsy',
         'empty_list': 'falsy', 'object': 'plain', 'eq_false': 'unusual',
         'eq_raises': 'unusual', 'bool_raises': 'unusual'}
+LOADERS = ('ok', 'raise_first')
 
 ACCESS = ('call', 'map_composite', 'map_chained', 'static_attr',
-          'static_item', 'static_get')
+          'static_item', 'static_get', 'world_one', 'world_two')
 FAMILY = {'call': 'handle', 'map_composite': 'map', 'map_chained': 'map',
           'static_attr': 'static', 'static_item': 'static',
-          'static_get': 'static'}
-DEPTH = {'quick': 4, 'thorough': 6}
-LETTER = dict(zip('cMmaigx', ACCESS + ('clear',)))
+          'static_get': 'static', 'world_one': 'world', 'world_two': 'world'}
+# length of the histories over the full (9 letter) alphabet / over the
+# alphabet without the world-file accesses (7 letters, thorough only)
+DEPTH = {'quick': 4, 'thorough': 5}
+BASIC_DEPTH = 6
+LETTER = dict(zip('cMmaigwWx', ACCESS + ('clear',)))
+BASIC_LETTERS = 'cMmaigx'
+
+# -- the world-file access paths -------------------------------------------
+MOD = 'c12h_mod'             # in-memory module: nothing real has this name
+WORLD_KEYS = {'world_one': 'w/one', 'world_two': 'w/two'}
+WORLD_TAGS = {'world_one': ['a'], 'world_two': ['a', 'b']}
+WORLD_FILES = {
+    'world_one': {'entities': [
+        {'components': [{'type': MOD + '.Comp',
+                         'args': ['a', '$res{r.k}']}]}]},
+    'world_two': {'entities': [
+        {'components': [{'type': MOD + '.Comp',
+                         'args': ['a', '$res{r.k}']}]},
+        {'components': [{'type': MOD + '.Comp', 'args': ['b'],
+                         'kwargs': {'res': '$res{r.k}'}}]}]},
+}
+
+
+class Comp:
+    """Component of the world files: records what it was built with."""
+
+    def __init__(self, tag, *args, **kwargs):
+        self.tag = tag
+        self.args = args
+        self.kwargs = kwargs
+
+
+_ENV = None                  # what _ensure_env() created
+_ATEXIT = []
+
+
+def _ensure_env():
+    """The process-wide things the world-file accesses need: the two JSON
+    files in a private directory, the module ``c12h_mod`` in sys.modules.
+    Created once (before the kernel forks its workers, which inherit it),
+    removed by ``_teardown_env()`` in the process that created it."""
+    global _ENV
+    if _ENV is not None:
+        return _ENV
+    if MOD in sys.modules:
+        raise HarnessError(f'{MOD} is already in sys.modules')
+    base = '/dev/shm' if os.path.isdir('/dev/shm') and os.access(
+        '/dev/shm', os.W_OK) else None
+    directory = tempfile.mkdtemp(prefix='c12_worlds_', dir=base)
+    files = {}
+    for path, description in WORLD_FILES.items():
+        files[path] = os.path.join(directory, path + '.json')
+        with open(files[path], 'w') as fout:
+            json.dump(description, fout)
+    module = types.ModuleType(MOD)
+    module.Comp = Comp
+    sys.modules[MOD] = module
+    object_from_string.cache_clear()
+    _ENV = dict(pid=os.getpid(), dir=directory, files=files)
+    if not _ATEXIT:
+        _ATEXIT.append(True)
+        atexit.register(_teardown_env)
+    return _ENV
+
+
+def _teardown_env():
+    global _ENV
+    made, _ENV = _ENV, None
+    if made is None or made['pid'] != os.getpid():
+        return                # nothing made / a forked worker: not the owner
+    sys.modules.pop(MOD, None)
+    object_from_string.cache_clear()
+    shutil.rmtree(made['dir'], ignore_errors=True)
 
 
 class EqFalse:
@@ -86,16 +194,28 @@ MAKERS = {
 }
 
 
+class LoadFailed(Exception):
+    """What the raise_first loader raises (takes one message, like the
+    OSError / ValueError of a real file loader)."""
+
+
 class CountingHandle(desper.Handle):
     """Real Handle; only ``load`` is supplied (and counts)."""
 
-    def __init__(self, spec):
+    def __init__(self, spec, loader='ok'):
         self.hx_spec = spec
-        self.hx_loads = 0           # load() calls in the current epoch
+        self.hx_loader = loader
+        self.hx_attempts = 0        # load() calls in the current epoch ...
+        self.hx_failed = 0          # ... that raised
+        self.hx_loads = 0           # ... that returned
         self.hx_objs = []           # what they returned, this epoch
         self.hx_all = []            # everything ever returned (kept alive)
 
     def load(self):
+        self.hx_attempts += 1
+        if self.hx_loader == 'raise_first' and self.hx_attempts == 1:
+            self.hx_failed += 1
+            raise LoadFailed('C12 harness: the resource is not there yet')
         value = MAKERS[self.hx_spec]()
         self.hx_loads += 1
         self.hx_objs.append(value)
@@ -114,27 +234,45 @@ def _is_in(obj, seq):
     return None
 
 
+def part_name(spec, loader):
+    return 'fixpoint/' + spec + ('' if loader == 'ok' else '/' + loader)
+
+
 class HandleDriver:
-    def __init__(self, spec):
+    def __init__(self, spec, loader='ok'):
+        if spec not in MAKERS or loader not in LOADERS:
+            raise HarnessError(f'unknown value / loader {spec!r} {loader!r}')
         self.spec = spec
-        self.name = 'fixpoint/' + spec
+        self.loader = loader
+        self.name = part_name(spec, loader)
 
     def params(self):
-        return dict(value=self.spec,
+        return dict(value=self.spec, loader=self.loader,
                     ops=list(ACCESS) + ['clear'])
 
     # -- construction ---------------------------------------------------
     def initial(self):
+        made = _ensure_env()
         ctx = Ctx()
         ctx.hits = collections.Counter()
         ctx.m = desper.ResourceMap()
-        ctx.h = CountingHandle(self.spec)
+        ctx.h = CountingHandle(self.spec, self.loader)
         ctx.m['r/k'] = ctx.h
+        ctx.worlds = {}
+        for path, key in WORLD_KEYS.items():
+            wh = desper.WorldFromFileHandle(made['files'][path])
+            ctx.m[key] = wh
+            # harness: the world handle never keeps a world between two
+            # operations, and looks the same before and after its first use
+            wh.clear()
+            ctx.worlds[path] = wh
         ctx.s = ctx.m.get_static_map()
-        ctx.accessed = False        # model: an access happened since clear
+        ctx.accessed = False        # model: an access returned since clear
+        ctx.failed = False          # model: an access failed since clear
         ctx.epoch_obj = None        # what this epoch's accesses returned
         ctx.had_epoch = False       # some earlier epoch had an access
         ctx.last_op = None
+        ctx.last_failed = False
         ctx.hist = ()
         return ctx
 
@@ -142,21 +280,51 @@ class HandleDriver:
         return [(a,) for a in ACCESS] + [('clear',)]
 
     # -- the real calls -------------------------------------------------
-    @staticmethod
-    def _access(ctx, path):
+    def _access(self, ctx, path):
+        """-> list of the objects the access delivered (one, or one per
+        reference of the world file)."""
         m, h, s = ctx.m, ctx.h, ctx.s
         if path == 'call':
-            return h()
+            return [h()]
         if path == 'map_composite':
-            return m['r/k']
+            return [m['r/k']]
         if path == 'map_chained':
-            return m['r']['k']
+            return [m['r']['k']]
         if path == 'static_attr':
-            return s.r.k
+            return [s.r.k]
         if path == 'static_item':
-            return s['r']['k']
+            return [s['r']['k']]
         if path == 'static_get':
-            return s.get('r').get('k')()
+            return [s.get('r').get('k')()]
+        if path in WORLD_KEYS:
+            wh = ctx.worlds[path]
+            wh.clear()
+            try:
+                world = m[WORLD_KEYS[path]]
+                comps = sorted((c for _, c in world.get(Comp)),
+                               key=lambda c: c.tag)
+            finally:
+                wh.clear()
+            tags = [c.tag for c in comps]
+            if tags != WORLD_TAGS[path]:
+                raise Violation(
+                    'world_reference_delivered',
+                    f'{path}: the loaded world holds the components {tags}, '
+                    f'the file lists {WORLD_TAGS[path]}',
+                    **self._features(path))
+            out = []
+            for c in comps:
+                received = list(c.args) + [c.kwargs[k]
+                                           for k in sorted(c.kwargs)]
+                if len(received) != 1:
+                    raise Violation(
+                        'world_reference_delivered',
+                        f'{path}: component {c.tag} received '
+                        f'{len(c.args)} positional and {sorted(c.kwargs)} '
+                        'keyword arguments besides its tag, the file gives '
+                        'it one "$res{r.k}"', **self._features(path))
+                out.append(received[0])
+            return out
         raise ValueError(path)
 
     def _features(self, path=None):
@@ -180,33 +348,75 @@ class HandleDriver:
                 ctx.hits['clear_uncached'] += 1
             if ctx.last_op == 'clear':
                 ctx.hits['clear_twice'] += 1
+            if ctx.failed and not ctx.accessed:
+                ctx.hits['clear_after_failed_load'] += 1
             if ctx.accessed:
                 ctx.had_epoch = True
                 ctx.hits['clear_cached'] += 1
             ctx.accessed = False
+            ctx.failed = False
             ctx.epoch_obj = None
-            h.hx_loads = 0          # harness counter: new epoch
+            h.hx_attempts = 0       # harness counters: new epoch
+            h.hx_failed = 0
+            h.hx_loads = 0
             h.hx_objs = []
             ctx.last_op = kind
+            ctx.last_failed = False
             return
+        if kind not in FAMILY:
+            raise HarnessError(f'unknown operation {op!r}')
 
         flag = self._cached(ctx, op)
-        before = h.hx_loads
+        loads0, attempts0, failed0 = h.hx_loads, h.hx_attempts, h.hx_failed
+        raised = None
+        objs = None
         try:
-            got = self._access(ctx, kind)
+            objs = self._access(ctx, kind)
+        except Violation:
+            raise
         except Exception as exc:
-            raise Violation('access_raises',
-                            f'{kind} raised {type(exc).__name__}: {exc}',
-                            **self._features(kind))
-        loaded = h.hx_loads - before
+            raised = exc
+        loaded = h.hx_loads - loads0
+        attempts = h.hx_attempts - attempts0
+        failed = h.hx_failed - failed0
         first = not ctx.accessed
 
         # cached tells whether the next access will load
-        if (loaded >= 1) != (not flag):
+        if (attempts >= 1) != (not flag):
             raise Violation(
                 'cached_predicts_load',
-                f'cached was {flag} before {kind} but load() ran {loaded} '
+                f'cached was {flag} before {kind} but load() ran {attempts} '
                 f'time(s)', **self._features(kind))
+
+        if failed:
+            # the loader raised: its exception belongs to the caller, and
+            # nothing was loaded, so nothing is cached (state oracle)
+            if raised is None:
+                raise Violation(
+                    'load_exception_reaches_caller',
+                    f'load() raised during {kind} but the access returned '
+                    'normally', **self._features(kind))
+            if attempts != 1 or loaded:
+                raise Violation(
+                    'load_once_per_epoch',
+                    f'{kind}: load() raised and the same access called it '
+                    f'{attempts} time(s) in all', **self._features(kind))
+            ctx.hits['load_raises_once'] += 1
+            if ctx.had_epoch:
+                ctx.hits['failed_load_after_clear'] += 1
+            if kind == 'static_attr':
+                ctx.hits['failed_load_static_attr'] += 1
+            if FAMILY[kind] == 'world':
+                ctx.hits['failed_load_world_file'] += 1
+            ctx.failed = True
+            ctx.last_op = kind
+            ctx.last_failed = True
+            return
+        if raised is not None:
+            raise Violation('access_raises',
+                            f'{kind} raised {type(raised).__name__}: '
+                            f'{raised}', **self._features(kind))
+
         # loads == 1 per epoch with >= 1 access
         if h.hx_loads != 1:
             what = ('first access of the epoch' if first
@@ -218,20 +428,24 @@ class HandleDriver:
                 f'since the last clear, expected exactly 1',
                 **self._features(kind))
         # identity
-        if first:
-            if got is not h.hx_objs[0]:
+        for got in objs:
+            if first:
+                if got is not h.hx_objs[0]:
+                    raise Violation(
+                        'identical_object',
+                        f'{kind} returned {type(got).__name__}, not the '
+                        f'object load() produced', **self._features(kind))
+            elif got is not ctx.epoch_obj:
                 raise Violation(
                     'identical_object',
-                    f'{kind} returned {type(got).__name__}, not the object '
-                    f'load() produced', **self._features(kind))
-            ctx.epoch_obj = got
-        elif got is not ctx.epoch_obj:
-            raise Violation(
-                'identical_object',
-                f'{kind} returned a different object than the earlier '
-                f'accesses of this epoch', **self._features(kind))
+                    f'{kind} returned a different object than the earlier '
+                    f'accesses of this epoch', **self._features(kind))
+        if first:
+            ctx.epoch_obj = objs[0]
 
         # named shortcuts
+        if first and ctx.failed:
+            ctx.hits['access_after_failed_load'] += 1
         if first and ctx.had_epoch:
             ctx.hits['reload_after_clear'] += 1
         elif first:
@@ -250,8 +464,17 @@ class HandleDriver:
             ctx.hits['static_other_access'] += 1
         elif FAMILY[kind] == 'map':
             ctx.hits['map_access'] += 1
+        elif FAMILY[kind] == 'world':
+            ctx.hits['world_file_reference'] += 1
+            if kind == 'world_two':
+                ctx.hits['world_file_two_references'] += 1
+            if first:
+                ctx.hits['world_file_reference_loads'] += 1
+            else:
+                ctx.hits['world_file_reference_cached'] += 1
         ctx.accessed = True
         ctx.last_op = kind
+        ctx.last_failed = False
 
     def _cached(self, ctx, op=None):
         try:
@@ -268,15 +491,22 @@ class HandleDriver:
     def check(self, ctx):
         flag = self._cached(ctx)
         if flag != ctx.accessed:
+            after = ('clear' if ctx.last_op == 'clear' else
+                     'start' if ctx.last_op is None else
+                     'failed_access' if ctx.last_failed else 'access')
             raise Violation(
                 'cached_flag',
                 f'h.cached is {flag} but '
-                + ('an access happened since the last clear' if ctx.accessed
+                + ('an access returned since the last clear' if ctx.accessed
+                   else 'the only access(es) since the last clear failed in '
+                   'load(): the next access will load' if ctx.failed
                    else 'no access happened since the last clear'),
-                after=('clear' if ctx.last_op == 'clear' else
-                       'start' if ctx.last_op is None else 'access'),
-                **self._features())
-        return (flag, ctx.h.hx_loads)
+                after=after,
+                # the path matters when an access that returned left the
+                # handle uncached (a path around the cache), not when the
+                # flag survives a failed load (Handle itself)
+                **self._features(ctx.last_op if after == 'access' else None))
+        return (flag, ctx.h.hx_loads, ctx.h.hx_failed)
 
     # -- canonical key --------------------------------------------------
     def key(self, ctx):
@@ -290,35 +520,50 @@ class HandleDriver:
                 return 'stale-value'
             return None
 
+        # filename: the private scratch directory differs from run to run
         graph = canon([ctx.m, ctx.h, ctx.s], namer=namer,
-                      skip_attrs=('hx_all', 'hx_spec'))
-        return ((ctx.accessed, h.hx_loads, ctx.had_epoch), graph)
+                      skip_attrs=('hx_all', 'hx_spec', 'hx_loader',
+                                  'filename'))
+        return ((ctx.accessed, ctx.failed, h.hx_loads, ctx.had_epoch), graph)
 
 
 def drivers(tier):
     d = {}
     for spec in VALUES:
-        drv = HandleDriver(spec)
-        d[drv.name] = (drv, dict(max_depth=12))
+        for loader in LOADERS:
+            drv = HandleDriver(spec, loader)
+            d[drv.name] = (drv, dict(max_depth=12))
     return d
 
 
 # -- every history of length D, no state merging -------------------------
-def history_cases(depth):
+def history_cases(depth, letters=None):
     import itertools
-    words = [''.join(w) for w in itertools.product(LETTER, repeat=depth)]
-    return [(spec, w) for spec in VALUES for w in words]
+    words = [''.join(w) for w in itertools.product(letters or LETTER,
+                                                   repeat=depth)]
+    return [(spec, loader, w) for spec in VALUES for loader in LOADERS
+            for w in words]
+
+
+def split_history_case(case):
+    case = tuple(case)
+    if len(case) == 2:              # older records: loader 'ok'
+        return case[0], 'ok', case[1]
+    if len(case) != 3:
+        raise HarnessError(f'malformed case {case!r}')
+    return case
 
 
 def run_history(case):
-    spec, word = case
-    driver = HandleDriver(spec)
+    spec, loader, word = split_history_case(case)
+    driver = HandleDriver(spec, loader)
     ctx = driver.initial()
     driver.check(ctx)
     for letter in word:
         driver.apply(ctx, (LETTER[letter],))
         driver.check(ctx)
-    return {'calls': len(word), 'hits': dict(ctx.hits), 'key': case}
+    return {'calls': len(word), 'hits': dict(ctx.hits),
+            'key': (spec, loader, word)}
 
 
 def run(tier, rep):
@@ -331,37 +576,84 @@ def run(tier, rep):
         'the oracle compares loaded values by identity only (never == or '
         'truth value)',
         'the "histories" part is bounded by its length D (quick 4, '
-        'thorough 6); the fixpoint parts carry the unbounded claim '
+        'thorough 5 over all 9 operations; thorough also 6 over the 7 '
+        'operations without the world-file accesses, part '
+        '"histories-basic"); the fixpoint parts carry the unbounded claim '
         '(conditional on the key argument of DESIGN.md 2.5)',
         'Loop.switch(clear_*) (desper/loop.py, second anchor) reaches '
         'Handle.clear() and is exercised by C13, not here',
+        'a load() that raises: only the pattern "the first call of an epoch '
+        'raises, every later one returns" (loader raise_first), exception '
+        'class = a plain Exception subclass taking one message.  Demanded: '
+        'an exception (any type - WorldFromFileTransformer re-creates it '
+        'with a longer message) reaches the caller of that access, load() '
+        'was called once by it, the handle is not cached afterwards, the '
+        'next access through any path calls load() again, and from its '
+        'return on the usual clauses hold (exactly one load() that returned '
+        'per epoch, identical object).  Loaders that fail repeatedly, raise '
+        'BaseException subclasses or re-enter their own handle are not in '
+        'the alphabet',
+        'world-file accesses: the harness clears the *world* handle before '
+        'and after each of them (a world handle that kept its world would '
+        'not resolve the reference again); what clear() does to a world is '
+        'not asked here.  World files are the two fixed descriptions named '
+        'in the rule; $handle{} markers, processors and the rest of the '
+        'description grammar belong to C15',
     ]
     rep.require_hits(falsy_value=1, reload_after_clear=1,
                      static_attr_access=1, cache_hit=1, unusual_eq=1,
-                     bool_raises=1, clear_uncached=1)
-    closed = {}
-    for name, (driver, kw) in drivers(tier).items():
-        stats = kernel.explore(driver, rep, part=name,
-                               params=driver.params(), **kw)
-        closed[driver.spec] = dict(states=stats['states'],
-                                   depth=stats['depth'])
-    rep.extra['fixpoint_closed'] = closed
-    depth = DEPTH[tier]
-    cases = history_cases(depth)
-    kernel.enumerate_cases(run_history, cases, rep, 'histories',
-                           params=dict(length=depth, ops=''.join(LETTER),
-                                       letters=LETTER, values=list(VALUES)),
-                           chunk=max(200, len(cases) // 400))
+                     bool_raises=1, clear_uncached=1,
+                     load_raises_once=1, access_after_failed_load=1,
+                     failed_load_after_clear=1, failed_load_static_attr=1,
+                     failed_load_world_file=1, clear_after_failed_load=1,
+                     world_file_reference=1, world_file_two_references=1,
+                     world_file_reference_loads=1,
+                     world_file_reference_cached=1)
+    saved = sys.modules.get(MOD)
+    _ensure_env()
+    try:
+        closed = {}
+        for name, (driver, kw) in drivers(tier).items():
+            stats = kernel.explore(driver, rep, part=name,
+                                   params=driver.params(), **kw)
+            closed[name[len('fixpoint/'):]] = dict(states=stats['states'],
+                                                   depth=stats['depth'])
+        rep.extra['fixpoint_closed'] = closed
+        depth = DEPTH[tier]
+        cases = history_cases(depth)
+        kernel.enumerate_cases(run_history, cases, rep, 'histories',
+                               params=dict(length=depth, ops=''.join(LETTER),
+                                           letters=LETTER,
+                                           values=list(VALUES),
+                                           loaders=list(LOADERS)),
+                               chunk=max(200, len(cases) // 400))
+        if tier == 'thorough':
+            cases = history_cases(BASIC_DEPTH, BASIC_LETTERS)
+            kernel.enumerate_cases(
+                run_history, cases, rep, 'histories-basic',
+                params=dict(length=BASIC_DEPTH, ops=BASIC_LETTERS,
+                            letters=LETTER, values=list(VALUES),
+                            loaders=list(LOADERS)),
+                chunk=max(200, len(cases) // 400))
+        rep.extra['c12_world_files'] = WORLD_FILES
+    finally:
+        _teardown_env()
+        if saved is not None:
+            sys.modules[MOD] = saved
 
 
 def replay(rec):
-    if rec['part'] == 'histories':
-        try:
-            run_history(tuple(rec['case']))
-        except Violation as v:
-            return v
-        return None
-    ds = drivers('thorough')
-    if rec['part'] in ds:
-        return kernel.replay_case(ds[rec['part']][0], rec['case'])
-    raise SystemExit(f'unknown part {rec["part"]}')
+    try:
+        if rec['part'] in ('histories', 'histories-basic'):
+            try:
+                run_history(tuple(rec['case']))
+            except Violation as v:
+                return v
+            return None
+        ds = drivers('thorough')
+        if rec['part'] in ds:
+            _ensure_env()
+            return kernel.replay_case(ds[rec['part']][0], rec['case'])
+        raise SystemExit(f'unknown part {rec["part"]}')
+    finally:
+        _teardown_env()
